@@ -552,24 +552,28 @@ def cloneGraphStep (allow : Bool) (rec : Nat → M Nat) (g : Nat) : M Nat := do
   let outputs ← mapM' getMapped gs.outputs
   mkGraph gs inputs outputs nodes inits
 
-/-- `value._uses.pop(Usage(node, i))` for every input of a node that is being thrown away -/
-def unUse (v n i : Nat) : M Unit := do
-  let vs ← readVal v
-  setCell v (.val { vs with uses := vs.uses.filter (fun u => u != (n, i)) })
+/-- `value._uses.pop(Usage(node, i))` for the input positions `i` of a node that is being thrown
+    away.  The records a node has on a value are exactly those of the positions where it consumes
+    the value (the cloner registered them itself), so the model drops every record of the node on
+    the value at once; a reference that is not a value cell has no records. -/
+def unUse (v n : Nat) : M Unit := fun s =>
+  match s.w[v]? with
+  | some (.val vs) => (.ok (), { s with w := s.w.set v (.val { vs with uses := vs.uses.filter (fun u => u.1 != n) }) })
+  | _ => (.ok (), s)
 
-def unUses (n : Nat) : Nat → List (Option Nat) → M Unit
-  | _, [] => pure ()
-  | i, none :: rest => unUses n (i + 1) rest
-  | i, some v :: rest => do
-    unUse v n i
-    unUses n (i + 1) rest
+def unUses (n : Nat) : List (Option Nat) → M Unit
+  | [] => pure ()
+  | none :: rest => unUses n rest
+  | some v :: rest => do
+    unUse v n
+    unUses n rest
 
 /-- `for i in range(len(new_node.inputs)): new_node.replace_input_with(i, None)`: the usage
     records go, the inputs become `None`, sharding specs of values that are no longer inputs are
     dropped (`Node._drop_sharding_for_value`) -/
 def detachNode (n : Nat) : M Unit := do
   let ns ← readNode n
-  unUses n 0 ns.inputs
+  unUses n ns.inputs
   let ns ← readNode n
   setCell n (.node { ns with
     inputs := ns.inputs.map (fun _ => none),
@@ -1044,6 +1048,12 @@ def constTyped (w : World) : Bool :=
         | some (.tensor _) => true
         | _ => false
       | none => true
+    | _ => true
+
+/-- every usage record names an existing cell -/
+def usesBounded (w : World) : Bool :=
+  w.all fun c => match c with
+    | .val v => v.uses.all fun u => u.1 < w.length
     | _ => true
 
 /-- no dangling pointers and well-typed tensor references: what holds of every heap abstracted
